@@ -15,9 +15,11 @@ injected sqlite3 error:
                 with pairwise distinct (h_j, p_j), row j has fingerprint_j and first_seen_j (round trip, half 1)
 Loop invariant (entry loop, i entries processed): durable table and commit counter untouched, connection open,
 view_i agrees with base outside {named_j | j < i}, wf(j) and present(named_j) for j < i [and the round-trip
-clause].  export_toml: every durable row appears in the dict handed to tomli_w.dump under the key
-f"{hostname}:{port}" with its five fields (half 2); the composition lemma (keys are injective: "h:p" determines
-(h, p) because the decimal port has no ':') is discharged by the solvers.
+clause].  export_toml's body is NOT under contract (list_hosts' row dictionaries, nested dict stores and tomli_w are
+outside the models): half 2 of the round trip - every durable row appears in the dumped dict under the key
+f"{hostname}:{port}" with its five fields - is decided by the bounded bank (replay/tofu_bank.py) only, labelled bounded.
+What is discharged deductively for it is the composition lemma the round trip needs (keys are injective: "h:p"
+determines (h, p) because the decimal port has no ':').
 """
 from __future__ import annotations
 
@@ -234,11 +236,6 @@ def install(E):
         return z3.And(once, ok_res, imp_inv_on(ctx, c1, c0, N))
     c_imp = Contract(f"{TOFU}.import_toml", make_args=imp_args2,
                      ensures=[("[C12] import_toml is all-or-nothing (a failure for any reason leaves the durable table untouched; one commit), leaves rows the file does not name identical (merge) or absent (replace), and reproduces fingerprint and first_seen of every entry when the target is empty", imp_post)])
-
-    # ---- export_toml ---------------------------------------------------------------------------------------------
-    def exp_args(ctx):
-        db = st["mk_self"](ctx)
-        return [db, VOpaque("path", z3.Int("file_path_id"))], {}
 
     return dict(store=st, import_contract=c_imp)
 
